@@ -59,6 +59,10 @@ Structure(e, wd) ==
   /\ Finite(e.w) /\ Finite(e.wc) /\ Finite(e.wn)
   /\ Close(e.wc, ConjC(e.w), wd)                                         \* f(conj z) = conj f(z)
   /\ (e.par = 1 => Close(e.wn, NegC(e.w), wd)) /\ (e.par = 2 => Close(e.wn, e.w, wd))     \* odd / even
+  \* f(z) = z (1 + O(z^2)) for the odd functions with unit slope at the origin: for tiny z the value is z itself,
+  \* both components included (a tiny imaginary part is not noise)
+  /\ (e.fn \in {"sin", "tan", "asin", "atan", "sinh", "tanh", "asinh", "atanh"} /\ Finite(e.z) /\ ~IsZero(e.z) /\ e.z[1] <= -59
+        => Close(e.w, e.z, wd))
   /\ (e.fn = "sqrt" => SignRe(e.w) >= 0 /\ (SignIm(e.z) # 0 => SignIm(e.w) = SignIm(e.z)))   \* principal root
   /\ (e.fn \in {"log", "log2", "log10"} => (SignIm(e.z) # 0 => SignIm(e.w) = SignIm(e.z)) /\ (SignIm(e.z) = 0 /\ SignRe(e.z) > 0 => SignIm(e.w) = 0))
 
